@@ -6,6 +6,9 @@ import Lessm.Model.Color
 import Lessm.Model.Builtins
 import Lessm.Model.Guard
 import Lessm.Model.ExprGen
+import Lessm.Model.ColorFn
+import Lessm.Model.Nest
+import Lean.Data.Json
 
 open Lessm
 
@@ -44,6 +47,71 @@ def parseCond (s : String) : Option Guard.Cond :=
 def parseGuard (s : String) : Option Guard.Guard :=
   (s.splitOn " | ").mapM (fun ch => (ch.splitOn " & ").mapM parseCond)
 
+def rgbStr (c : ColorFn.RGB) : String := s!"{c.1} {c.2.1} {c.2.2}"
+def exactStr (c : Rat × Rat × Rat) : String := Num.ratStr c.1 ++ " " ++ Num.ratStr c.2.1 ++ " " ++ Num.ratStr c.2.2
+
+def colorFn (args : List String) : String :=
+  let nat (s : String) : Nat := s.toNat?.getD 0
+  let rat (s : String) : Rat := (parseRat s).getD 0
+  match args with
+  | [f, r, g, b, d] =>
+      let c : ColorFn.RGB := (nat r, nat g, nat b)
+      let d := rat d
+      match f with
+      | "lighten" => rgbStr (ColorFn.lighten c d) ++ " | " ++ exactStr (ColorFn.ophslExact c d 1 1)
+      | "darken" => rgbStr (ColorFn.darken c d) ++ " | " ++ exactStr (ColorFn.ophslExact c d 1 (-1))
+      | "saturate" => rgbStr (ColorFn.saturate c d) ++ " | " ++ exactStr (ColorFn.ophslExact c d 2 1)
+      | "desaturate" => rgbStr (ColorFn.desaturate c d) ++ " | " ++ exactStr (ColorFn.ophslExact c d 2 (-1))
+      | "spin" => rgbStr (ColorFn.spin c d) ++ " | " ++ exactStr (ColorFn.spinExact c d)
+      | _ => "bad-op"
+  | [f, r, g, b] =>
+      let c : ColorFn.RGB := (nat r, nat g, nat b)
+      match f with
+      | "greyscale" => rgbStr (ColorFn.greyscale c) ++ " | " ++ exactStr (ColorFn.ophslExact c 100 2 (-1))
+      | "hue" => Num.ratStr (ColorFn.hue c)
+      | "saturation" => Num.ratStr (ColorFn.saturation c)
+      | "lightness" => Num.ratStr (ColorFn.lightness c)
+      | "hsl" => match r.toInt? with
+          | some h => rgbStr (ColorFn.hsl h (rat g) (rat b)) ++ " | " ++ exactStr (ColorFn.hslExact h (rat g) (rat b))
+          | none => "bad-op"
+      | _ => "bad-op"
+  | ["mix", r, g, b, r2, g2, b2, w] =>
+      let c1 : ColorFn.RGB := (nat r, nat g, nat b)
+      let c2 : ColorFn.RGB := (nat r2, nat g2, nat b2)
+      rgbStr (ColorFn.mix c1 c2 (rat w)) ++ " | " ++ exactStr (ColorFn.mixExact c1 c2 (rat w))
+  | _ => "bad-op"
+
+open Lean in
+partial def itemOfJson (j : Json) : Except String Nest.Item := do
+  match j.getObjVal? "d" with
+  | .ok d =>
+      let a ← d.getArr?
+      let p ← (a[0]!).getStr?
+      let v ← (a[1]!).getStr?
+      pure (.decl ⟨p, v⟩)
+  | .error _ =>
+      let r ← j.getObjValAs? (Array String) "r"
+      let b ← (← j.getObjVal? "b").getArr?
+      let items ← b.toList.mapM itemOfJson
+      pure (.rule r.toList items)
+
+open Lean in
+def nestFlat (payload : String) : String :=
+  match Json.parse payload with
+  | .error e => "bad-json " ++ e
+  | .ok j =>
+      match j.getArr? with
+      | .error e => "bad-json " ++ e
+      | .ok arr =>
+          match arr.toList.mapM itemOfJson with
+          | .error e => "bad-item " ++ e
+          | .ok items =>
+              let out := Nest.compileSheet items
+              let js : Json := Json.arr (out.toArray.map (fun r =>
+                Json.arr #[Json.arr (r.sels.toArray.map (fun s => Json.str (Sel.fmtOne "" s))),
+                           Json.arr (r.decls.toArray.map (fun d => Json.arr #[Json.str d.prop, Json.str d.value]))]))
+              js.compress
+
 def handle (op : String) (payload : String) : String :=
   let args := (payload.splitOn " ").filter (· ≠ "")
   match op, args with
@@ -59,6 +127,7 @@ def handle (op : String) (payload : String) : String :=
           | some (v, u) => Num.ratStr v ++ " " ++ String.ofList u
           | none => "none"
       | none => "bad-op"
+  | "c09.fn", ws => colorFn ws
   | "c04.eval", ws =>
       match Expr.evalText ws with
       | some (.ok v u) => Num.ratStr v ++ " " ++ u
@@ -68,6 +137,7 @@ def handle (op : String) (payload : String) : String :=
   | _, _ =>
     -- payloads whose fields may contain spaces are separated by U+001F
     match op, payload.splitOn "\x1f" with
+    | "c02.flat", [j] => nestFlat j
     | "c17.unknown", name :: rest => Builtins.callUnknown name rest
     | "c06.guard", [g] =>
         match parseGuard g with
